@@ -524,6 +524,61 @@ theorem C15_pv_untag_shape (v : MV) (k : Nat) (p : MV) (h : untag v = some (k, p
       | (cases h; rename_i ht; rw [ht]; simp)
   · cases h
 
+/-! ## structures: every member written is the member found after the trip -/
+
+theorem members_length (fields : List (List Nat × MV)) : (members fields).length = 2 * fields.length := by
+  induction fields with
+  | nil => rfl
+  | cons f r ih => obtain ⟨k, v⟩ := f; simp only [members, List.length_cons, ih]; omega
+
+theorem field_members : ∀ (fields : List (List Nat × MV)) (k : List Nat) (v : MV),
+    (fields.map (·.1)).Nodup → (k, v) ∈ fields → field k (members fields) = some v
+  | [], _, _, _, h => by cases h
+  | (k', v') :: r, k, v, hn, hm => by
+    simp only [List.map_cons, List.nodup_cons] at hn
+    simp only [members, field]
+    rcases List.mem_cons.mp hm with h | h
+    · cases h; simp
+    · have hne : k' ≠ k := by
+        intro e; subst e
+        exact hn.1 (List.mem_map.mpr ⟨(k', v), h, rfl⟩)
+      rw [if_neg hne]
+      exact field_members r k v hn.2 h
+
+theorem field_absent : ∀ (fields : List (List Nat × MV)) (k : List Nat),
+    k ∉ fields.map (·.1) → field k (members fields) = none
+  | [], _, _ => rfl
+  | (k', v') :: r, k, h => by
+    simp only [List.map_cons, List.mem_cons, not_or] at h
+    simp only [members, field]
+    rw [if_neg (fun e => h.1 e.symm)]
+    exact field_absent r k h.2
+
+/-- a structure whose members are well formed is well formed (fewer than 2^32 members) -/
+theorem structMV_wf (fields : List (List Nat × MV)) (hn : fields.length < 4294967296)
+    (hk : ∀ f ∈ fields, f.1.length < 4294967296) (hv : ∀ f ∈ fields, f.2.WF) : (structMV fields).WF := by
+  have hw : WFs (members fields) := by
+    induction fields with
+    | nil => simp [members, WFs]
+    | cons f r ih =>
+      obtain ⟨k, v⟩ := f
+      simp only [members, WFs, MV.WF]
+      refine ⟨hk (k, v) (by simp), hv (k, v) (by simp), ?_⟩
+      exact ih (by simp at hn; omega) (fun f hf => hk f (by simp [hf])) (fun f hf => hv f (by simp [hf]))
+  simp only [structMV, MV.WF, members_length]
+  exact ⟨by omega, by omega, hw⟩
+
+/-- **a structure survives the trip member by member**: from the bytes written for a structure with distinct member names,
+the reader gets a map in which every member name leads to the value that was written, and no other name leads anywhere
+(an optional member that was skipped is absent, hence `None`) -/
+theorem C15_mp_struct_members (fields : List (List Nat × MV)) (hn : fields.length < 4294967296)
+    (hk : ∀ f ∈ fields, f.1.length < 4294967296) (hv : ∀ f ∈ fields, f.2.WF) (hd : (fields.map (·.1)).Nodup)
+    (rest : List Nat) :
+    ∃ kvs, decode (enc (structMV fields) ++ rest) = some (.map kvs) ∧
+      (∀ k v, (k, v) ∈ fields → field k kvs = some v) ∧ (∀ k, k ∉ fields.map (·.1) → field k kvs = none) :=
+  ⟨members fields, C15_mp_decode_encode _ (structMV_wf fields hn hk hv) rest,
+    fun k v h => field_members fields k v hd h, fun k h => field_absent fields k h⟩
+
 /-! non-vacuity -/
 example : enc (.map [.str [97], .int 300, .str [98], .arr [.nil, .bool true, .int (-33)]])
     = [0x82, 0xa1, 97, 0xcd, 1, 44, 0xa1, 98, 0x93, 0xc0, 0xc3, 0xd0, 223] := by
